@@ -142,11 +142,14 @@ def run_cases(ctx, cases, readers=True):
                 rep.sample({'kind': kind, 'raw': repr(parts[0])[:120], 'decode_nmea_line': res[1] if res[0] == 'Raise' else res[1][0]})
 
 
-def run_readers(ctx):
-    """HOOK -- the reader-loop half of C05 (C05b: no escape from IterMessages / ByteStream / NMEAQueue.put_line with and
-    without a TagBlockQueue; C05c: skipped lines are no-ops; C05d: slot non-interference) is added here by the composition
-    layer (Model/Assemble.v, Model/Tbq.v).  Intentionally does nothing yet."""
-    return None
+def run_readers(ctx, deep=False):
+    """The reader-loop half of C05 (C05b: nothing escapes IterMessages / NMEAQueue.put_line with and without a
+    TagBlockQueue; C05c: skipped lines are no-ops; C05d: slot non-interference): tools/props/C05_readers.py over the composed
+    model Model/Reader.v, and the tag block queue part tools/props/C05_tbq.py."""
+    import C05_readers
+    import C05_tbq
+    (C05_readers.hunt if deep else C05_readers.run)(ctx)
+    (C05_tbq.hunt if deep else C05_tbq.run)(ctx)
 
 
 def run(ctx):
@@ -168,9 +171,16 @@ def hunt(ctx):
     """Something no longer checks: the full token set on every base, exhaustive single-byte edits, much more garbage."""
     ctx.escalated = True
     run_cases(ctx, generate(ctx, deep=True))
+    run_readers(ctx, deep=True)
 
 
 def replay(ctx, data):
+    if 'lines' in data:                 # reader-level replay (tools/props/C05_readers.py)
+        import C05_readers
+        return C05_readers.replay(ctx, data)
+    if 'tb' in data:                    # tag block queue replay (tools/props/C05_tbq.py)
+        import C05_tbq
+        return C05_tbq.replay(ctx, data)
     parts = [bytes.fromhex(p) for p in data['parts']]
     entry = data.get('entry', 'decode')
     if entry == 'decode':
